@@ -202,7 +202,7 @@ theorem op_refines (op : Op) (hwf : op.WF) (s : BitString) (t : Ideal) (hR : R s
     simp only [Op.run, Op.spec, writeBigInt_eq v n hn hlo hhi]
     exact write_refines _ s t hR
   | writeUnary n =>
-    simp only [Op.run, Op.spec, writeUnary_eq n hwf]
+    simp only [Op.run, Op.spec, writeUnary_eq, writeUnary_spec_eq]
     exact write_refines _ s t hR
   | writeLimUint v n =>
     simp only [Op.run, Op.spec, writeLimUint, writeUint_eq, minBitsRequired_eq_bitLength n hwf.2]
